@@ -112,7 +112,8 @@ class Contract:
     read/write the engine heap: that is how frame conditions are expressed).
     """
 
-    def __init__(self, fn, spec, requires=None, engine=False, note='', assumed=False):
+    def __init__(self, fn, spec, requires=None, engine=False, note='', assumed=False, raises=None):
+        self.raises = raises or []       # [(cond(*args) -> truth, exception class)]: host-level exceptions of the body
         self.fn = fn
         self.spec = spec
         self.requires = requires
@@ -128,6 +129,10 @@ class Contract:
 
     def __call__(self, eng, *args, **kwargs):
         args = bind(self.fn, args, kwargs)
+        for cond, cls in self.raises:
+            c = cond(*args)
+            if c is not False:
+                eng.host_check(sym.zb(sym.lnot(c)), cls, '%s: %s' % (self.qn, cls.__name__))
         if self.requires is not None:
             ok = self.pre(eng, args)
             eng.oblige('pre@callsite', self.qn, ok)
